@@ -76,6 +76,45 @@ fn run_ipq(ops: &[&str]) -> String {
     out.join(" ")
 }
 
+/// crw ops: c,<i> clone | w,<i>,<x> write (push x on the shared list) | s,<i>,<x> write_scratchpad
+/// (push x on the local cache, print it) | r,<i> read
+fn run_crw(ops: &[&str]) -> String {
+    use crate::util::cached_rw_lock::CachedRwLock;
+    let mut clones: Vec<CachedRwLock<Vec<usize>>> = vec![CachedRwLock::new(Vec::new())];
+    let show = |v: &Vec<usize>| if v.is_empty() { "-".to_string() } else { v.iter().map(|x| x.to_string()).collect::<Vec<_>>().join(".") };
+    let mut out = Vec::new();
+    for op in ops {
+        let f: Vec<&str> = op.split(',').collect();
+        let i: usize = f[1].parse().unwrap();
+        if i >= clones.len() {
+            out.push("-".to_string());
+            continue;
+        }
+        match f[0] {
+            "c" => {
+                let c = clones[i].clone();
+                clones.push(c);
+                out.push("-".to_string());
+            }
+            "w" => {
+                clones[i].write().unwrap().push(f[2].parse().unwrap());
+                out.push("-".to_string());
+            }
+            "s" => {
+                let v = clones[i].write_scratchpad().unwrap();
+                v.push(f[2].parse().unwrap());
+                out.push(show(v));
+            }
+            "r" => {
+                let v = clones[i].read().unwrap().clone();
+                out.push(show(&v));
+            }
+            _ => panic!("bad op"),
+        }
+    }
+    out.join(" ")
+}
+
 pub fn run_case(line: &str) -> String {
     let w = words(line);
     if w.is_empty() {
@@ -84,7 +123,9 @@ pub fn run_case(line: &str) -> String {
     match w[0] {
         "pq" => run_pq(&w[1..]),
         "ipq" => run_ipq(&w[1..]),
+        "crw" => run_crw(&w[1..]),
         "sl" => crate::slscen::run(&w[1..]),
+        "task" => crate::tscen::run(&w[1..]),
         "q" => crate::channel::qscen::run_seq(&w[1..]),
         "qc" => crate::channel::qscen::run_conc(&w[1..]),
         k => format!("ERR unknown-kind {}", k),
